@@ -642,7 +642,8 @@ class Interp(object):
             a.decide(atom, True)
             b.decide(atom, False)
             return [(a, True), (b, False)]
-        if k in ("P", "PROJ", "DEQ", "OPAQUE"):
+        if k in ("P", "PROJ", "DEQ", "OPAQUE", "K"):
+            # (a key of the store is an id: 0 is a legitimate id - the legacy zero ids - so a key is not known to be truthy)
             atom = ("truthy", v)
             if atom in st.flags:
                 return [(st, st.flags[atom])]
